@@ -175,15 +175,20 @@ class Gen:
             name = b[1]
             if name == 'GeneralizedTime':
                 return ('chars', r.choice(['20170801120112Z', '20170801120112.5Z', '201708011201Z', '20170801120112.123Z',
-                                           '19991231235959.999Z', '20170801120112.099Z', '2017080112Z']))
+                                           '19991231235959.999Z', '2017080112Z']))
             if name == 'UTCTime':
                 return ('chars', r.choice(['170801120112Z', '1708011201Z', '991231235959Z', '500101000000Z']))
             al = ALPHABET[name]
             return ('chars', ''.join(r.choice(al) for _ in range(r.choice([0, 1, 2, 3, 5, 8, r.randint(0, 12)]))))
         if k == 'any':
-            # a complete TLV, as the library documents
-            n = r.randint(0, 6)
-            return ('any', bytes([r.choice([2, 4, 0x81, 0x30 if n % 2 == 0 else 4]), n]) + bytes(r.randint(0, 255) for _ in range(n)))
+            # a complete, well-formed encoding, as the library documents
+            n = r.randint(0, 5)
+            body = bytes(r.randint(0, 255) for _ in range(n))
+            return ('any', r.choice([
+                b'\x04' + bytes([n]) + body, b'\x02\x01' + bytes([r.randint(0, 255)]), b'\x05\x00',
+                b'\x30\x03\x02\x01\x05', b'\xa0\x03\x02\x01\x05', b'\x0c\x02\xc3\xa9', b'\x30\x00',
+                b'\x81' + bytes([n]) + body, b'\x30\x80\x02\x01\x07\x00\x00', b'\x01\x01\xff',
+                b'\x7f\x81\x00\x02\x04\x00', b'\x24\x80\x04\x01\x61\x00\x00']))
         if k in ('seq', 'set'):
             out = []
             for p, ft in b[1]:
